@@ -1,21 +1,50 @@
-"""C01 - decoding and inspection never panic or hang (E1 + E2 + lemmas)."""
+"""C01 - decoding and inspection never panic or hang (E1 + E2 + lemmas).
+
+Decided: for every entry point of the decode / inspect surface, every panic edge reachable from it (Assert
+terminators, preconditions of std / byteorder calls, unwrap, explicit panics) is discharged by the abstract
+interpreter for *all* inputs, or by a lemma whose premises are re-checked on this tree; the local call graph is
+acyclic and every loop has a machine-checked ranking argument (or is a `for` over a finite std iterator)."""
+import re
 from absint.lin import Lin
 from absint.values import *
+from absint.interp import Interp, FailClosed, State
+from absint.models import M
+from mir import Origins, strip, short_span, const_int
+import e1
 
 LEVEL = "proof"
 
+MSG = "stun_types::message::Message"
+FROM_BYTES = "stun_types::message::Message::<'a>::from_bytes"
+VALIDATE = "stun_types::message::Message::<'a>::validate_integrity"
+GET_TYPE = "stun_types::message::Message::<'a>::get_type"
+ITER_NEXT = "<stun_types::message::MessageAttributesIter<'a> as std::iter::Iterator>::next"
+UNKNOWN_ATTRS = "stun_types::message::Message::<'a>::unknown_attributes"
+BAD_REQUEST = "stun_types::message::Message::<'a>::bad_request"
+HDR_FROM_BYTES = "stun_types::message::MessageHeader::from_bytes"
+MT_FROM_BYTES = "stun_types::message::MessageType::from_bytes"
+RAW_FROM_BYTES = "stun_types::attribute::RawAttribute::<'a>::from_bytes"
+
+
+# ----------------------------------------------------------------------------------------------- invariants
 
 def inv_message(it, st, s):
-    """type invariant L1: Message.data.len() >= 20 (checked at every construction site, see run())"""
+    """type invariant L1: Message.data.len() >= 20"""
     d = s.get(0)
     if isinstance(d, Seq):
         st.sys.add_ge(d.len - 20)
+        st.sys.add_ge(Lin.const(65555) - d.len)
 
 
-INVARIANTS = {"stun_types::message::Message": inv_message}
+def inv_message_check(it, st, s):
+    d = s.get(0)
+    if isinstance(d, Seq):
+        return [(d.len - 20, "Message.data.len() >= 20"), (Lin.const(65555) - d.len, "Message.data.len() <= 65535 + 20")]
+    return [(Lin.const(-1), "Message.data is a slice of known length")]
 
 
-import re
+INVARIANTS = {MSG: inv_message}
+INVARIANT_CHECKS = {MSG: inv_message_check}
 
 
 def entries(prog):
@@ -36,6 +65,8 @@ def entries(prog):
                 ents[path] = "formatting"
             elif tr == "std::iter::Iterator" and name == "next":
                 ents[path] = "attribute iteration"
+            elif tr == "std::clone::Clone" and name == "clone" and i["self_s"].startswith(("stun_types::message::Message<", "stun_types::attribute::RawAttribute<")):
+                ents[path] = "read-only copy"
     rx = [
         (r"^stun_types::message::Message::<'a>::(from_bytes|get_type|class|has_class|is_response|method|has_method|transaction_id|validate_integrity|raw_attribute|attribute|iter_attributes|check_attribute_types|has_attribute)$", "message API"),
         (r"^stun_types::message::MessageHeader::(from_bytes|data_length|transaction_id|get_type)$", "header decoder"),
@@ -51,3 +82,771 @@ def entries(prog):
             if re.search(r, k):
                 ents[k] = why
     return ents
+
+
+# ----------------------------------------------------------------------------------------------- E2 driver
+
+class Analysis:
+    """runs E2 over the entries (and over every closure / callback that escaped to external code), collects the
+    obligations per source construct"""
+
+    def __init__(self, prog, ents, invariants=INVARIANTS, inv_checks=INVARIANT_CHECKS):
+        self.prog = prog
+        self.ents = dict(ents)
+        self.source = {}      # (body, bb, idx) -> dict(kind, descr, span, contexts: [(ok, ctx, why, entry)])
+        self.analysed = {}
+        self.unmodelled = {}
+        self.failclosed = []
+        self.loops = {}
+        self.models_used = {}
+        self.entry_results = {}
+        self.nvars = 0
+        self.invariants = invariants
+        self.inv_checks = inv_checks
+
+    def run(self):
+        todo = list(sorted(self.ents))
+        done = set()
+        while todo:
+            k = todo.pop(0)
+            if k in done or k not in self.prog.bodies:
+                continue
+            done.add(k)
+            it = Interp(self.prog, M, self.invariants)
+            it.inv_checks = self.inv_checks
+            try:
+                res = it.analyse_entry(k, setup=SETUPS.get(k))
+                self.entry_results[k] = res
+            except FailClosed as e:
+                self.failclosed.append((k, str(e)))
+                continue
+            for o in it.obligations.values():
+                rec = self.source.setdefault((o.body, o.bb, o.idx), {"kind": o.kind, "descr": o.descr, "span": o.span, "ctx": []})
+                rec["ctx"].append((o.ok, o.ctx, o.why, k))
+            for b, n in it.analysed.items():
+                self.analysed[b] = self.analysed.get(b, 0) + n
+            self.unmodelled.update(it.unmodelled)
+            for key, v in it.loops.items():
+                self.loops.setdefault((key[0], key[2]), []).append((k, key[1], v))
+            for m, n in it.model_used.items():
+                self.models_used[m] = self.models_used.get(m, 0) + n
+            self.nvars += it.nvar
+            for e in sorted(it.escaped):
+                if e in self.prog.bodies and e not in done:
+                    self.ents.setdefault(e, "callback handed to external code")
+                    todo.append(e)
+            if not todo:
+                # trait impls of workspace types that external generic code may call back (PartialEq in
+                # slice::contains, Clone in to_vec, ...): analysed stand-alone on arbitrary arguments
+                cg = self.prog.call_graph()
+                trait_of = {}
+                for i in self.prog.impls:
+                    for name, path in i["items"].items():
+                        trait_of[path] = i["trait"]
+                for b in sorted(self.analysed):
+                    for bi, t, tg, cb in cg.get(b, []):
+                        ext = [x[1] for x in tg if x[0] == "ext"]
+                        allowed = set()
+                        for n in ext:
+                            allowed |= callback_traits(n)
+                        for c_ in cb:
+                            cb_body = self.prog.bodies.get(c_)
+                            if cb_body is None or c_ in done or c_ in self.analysed:
+                                continue
+                            tr = trait_of.get(c_) or trait_of.get(cb_body.defp)
+                            if cb_body.kind != "closure" and (tr is None or tr.split("<")[0] not in allowed):
+                                continue
+                            if cb_body.mono and cb_body.defp in self.analysed:
+                                continue
+                            self.ents.setdefault(c_, "trait impl callable from external generic code")
+                            todo.append(c_)
+        return self
+
+
+def snapshot_self(it, st, fr):
+    """keep the initial value of *self alive as a ghost cell, so return states can be related to it"""
+    for c in list(st.cells):
+        if c.endswith("*a1"):
+            st.cells["ghost:init"] = st.cells[c]
+
+
+SETUPS = {ITER_NEXT: snapshot_self}
+
+
+CALLBACK_TABLE = [
+    # external callee pattern -> traits of its generic arguments it may call
+    (r"::contains$|PartialEq|::eq$|::ne$|assert_failed|::starts_with$|::ends_with$|::dedup|::position", {"std::cmp::PartialEq"}),
+    (r"to_vec|to_owned|::clone$|cloned|extend_from_slice|from_elem|::resize$|Clone", {"std::clone::Clone"}),
+    (r"new_debug|debug_|field::debug|Debug", {"std::fmt::Debug"}),
+    (r"new_display|field::display|to_string|Display", {"std::fmt::Display"}),
+    (r"new_lower_hex|LowerHex", {"std::fmt::LowerHex"}),
+    (r"hash|Hash", {"std::hash::Hash", "std::cmp::PartialEq", "std::cmp::Eq"}),
+    (r"::cmp$|partial_cmp|::sort|::max$|::min$|Ord|binary_search|BTree", {"std::cmp::Ord", "std::cmp::PartialOrd", "std::cmp::PartialEq"}),
+    (r"Iterator|IntoIterator|FromIterator|Extend", {"std::iter::Iterator", "std::iter::IntoIterator"}),
+    (r"Default|unwrap_or_default|mem::take", {"std::default::Default"}),
+    (r"drop_glue|mem::drop", {"std::ops::Drop"}),
+    (r"::into$|::from$|try_into|try_from", {"std::convert::From", "std::convert::TryFrom", "std::convert::Into"}),
+    (r"Deref|as_ref|borrow", {"std::ops::Deref", "std::ops::DerefMut", "std::convert::AsRef"}),
+]
+
+
+def callback_traits(name):
+    out = set()
+    for rx, trs in CALLBACK_TABLE:
+        if re.search(rx, name):
+            out |= trs
+    return out
+
+
+# ----------------------------------------------------------------------------------------------- helpers for lemmas
+
+def guard_of_panic(prog, body, bb):
+    """classify the condition guarding a panic block: origin of the discriminant of the nearest switch that
+    decides between the panic block and the normal continuation"""
+    og = Origins(prog, body)
+    seen = set()
+    cur = bb
+    for _ in range(6):
+        ps = [p for p in body.preds(cur) if p not in seen]
+        if len(ps) != 1:
+            return None
+        p = ps[0]
+        seen.add(p)
+        t = body.term(p)
+        if t["k"] == "switch":
+            return og.operand(t["op"])
+        cur = p
+    return None
+
+
+def sub_check(prog, module, rules=None):
+    """run another property's rule set on this tree as a lemma premise; -> (ok, failing keys)"""
+    import importlib
+    from report import Check
+    mod = importlib.import_module("rules." + module)
+    sub = Check(module.upper(), "quick", "other", 0)
+    try:
+        mod.run(prog, sub, "quick")
+    except Exception as e:
+        return False, ["%s: %s" % (type(e).__name__, e)]
+    bad = [o for o in sub.obs if not o["ok"] and (rules is None or o["rule"] in rules)]
+    n = sum(1 for o in sub.obs if (rules is None or o["rule"] in rules))
+    if n == 0:
+        return False, ["no instance of %s evaluated" % (rules,)]
+    return not bad, ["%s|%s" % (o["rule"], o["instance"]) for o in bad[:5]]
+
+
+def walker_facts(prog, key):
+    """For a TLV-walking loop body: (start offset consts, advance facts).  Returns dict with
+       'from_bytes_arg': origins of the slice handed to RawAttribute::from_bytes,
+       'advance': True when the RangeFrom index start is padded_len(&attr) with attr the Ok payload of that call,
+       'base': origin of the slice the walk starts on (the [20..] re-slice)"""
+    from dtable import instrumented_body
+    b, ups = instrumented_body(prog, key)
+    og = Origins(prog, b)
+    facts = {"body": b.key, "raw_calls": 0, "advance_ok": 0, "advance_sites": 0, "starts": [], "base": []}
+    heads = {h for (_, h) in b.back_edges()}
+    loop_blocks = set()
+    for h in heads:
+        loop_blocks |= b.natural_loop(h)
+    for bi, t in b.calls():
+        name = og.callee_name(t)
+        if name == RAW_FROM_BYTES and bi in loop_blocks:
+            facts["raw_calls"] += 1
+        if re.search(r"Index<std::ops::RangeFrom<usize>> for \[u8\]>::index$", name):
+            rng = strip(og.operand(t["args"][1]))
+            start = strip(rng.a[1][0]) if rng.k == "agg" and rng.a[1] else None
+            if bi in loop_blocks:
+                facts["advance_sites"] += 1
+                # start must be AttributeExt::padded_len(&attr), attr <- Continue payload of Try::branch(RawAttribute::from_bytes(..))
+                if start is not None and start.k == "call" and "AttributeExt>::padded_len" in start.a[0]:
+                    src = repr(start)
+                    if RAW_FROM_BYTES in src or "multi" in src or "partial" in src:
+                        facts["advance_ok"] += 1
+                elif start is not None and start.k in ("multi", "partial"):
+                    # padded_len stored in a local first: accept when that local's only definition is the padded_len call
+                    l = start.a[0]
+                    ds = b.defs().get(l, [])
+                    if ds and all(d[0] == "call" and "AttributeExt>::padded_len" in og.callee_name(d[3]) for d in ds):
+                        facts["advance_ok"] += 1
+            else:
+                c = const_int(start) if start is not None else None
+                facts["starts"].append(c)
+                facts["base"].append(repr(strip(og.operand(t["args"][0])))[:200])
+    return facts
+
+
+# ----------------------------------------------------------------------------------------------- the rule
+
+def run(prog, chk, tier, analysis=None):
+    chk.explanation = ("Abstract interpretation (linear constraints over integers and slice lengths with affine-hull joins, "
+                       "enum-variant partitioning, widening; workspace callees analysed in context; external callees by a "
+                       "model table) of every decode/inspect entry point of stun-types: each reachable panic edge is an "
+                       "obligation discharged for all inputs by the domain or by a lemma whose premises are re-checked here; "
+                       "call graph acyclic; every loop has a ranking argument checked on the fixpoint.")
+    chk.trusted += ["external-callee model table (pylib/absint/models.py): std/byteorder/tracing/hmac/crc calls are total under "
+                    "their recorded preconditions; Formatter sinks and tracing Subscribers do not panic",
+                    "lemma arguments L2-L5, L7 (prose in DESIGN.md); their premises are machine-checked",
+                    "allocation failure and stack exhaustion are out of scope"]
+    cfg = prog.meta.get("stun_types", {})
+    chk.assumptions.append("analysed configuration: overflow_checks=%s debug_assertions=%s (dev profile is the binding one for the "
+                           "'overflows' clause)" % (cfg.get("overflow_checks"), cfg.get("debug_assertions")))
+    ents = entries(prog)
+    chk.floor("entry-points", len(ents), 125)
+    # no unsafe code in the analysed crates (soundness premise of the memory model)
+    user_unsafe = [u for u in prog.unsafe_blocks if u["crate"] == "stun_types" and not u.get("exp")]
+    chk.ob("no-unsafe", "stun_types has no user-written unsafe block", not user_unsafe,
+           where=user_unsafe[0]["span"] if user_unsafe else None, how="HIR visitor")
+    an = analysis or Analysis(prog, ents).run()
+    chk.analysed["entries"] = len(an.ents)
+    chk.analysed["bodies_analysed"] = len(an.analysed)
+    chk.analysed["contexts_analysed"] = sum(an.analysed.values())
+    chk.analysed["symbolic_variables"] = an.nvars
+    chk.analysed["models_used"] = an.models_used
+    for k, why in an.failclosed:
+        chk.fail("fail-closed", k, prog.bodies[k].loc(), why)
+    for n, w in an.unmodelled.items():
+        chk.fail("unmodelled-callee", n, w, "external callee without a model (fail closed)")
+    # coverage: every body reachable from the analysed entries through resolved workspace calls was analysed in some
+    # context (callbacks and closures reach the analysis as entries of their own: Analysis.run)
+    reach = prog.reach(sorted(an.ents), follow_callbacks=False, follow_closures=False)
+    direct = _direct_reach(prog, sorted(an.ents))
+    # (targets of dyn / generic dispatch are analysed per call site after devirtualisation by the pointer's recorded
+    # concrete type or by signature; only uniquely resolved edges are required to be covered)
+    missing = [k for k in direct if k not in an.analysed and not _covered_elsewhere(prog, k, an)]
+    chk.counts["reachable_bodies"] = len(reach)
+    chk.ob("coverage", "every body reachable from the entries was analysed", not missing,
+           detail="not analysed: %s" % missing[:8], how="call-graph reachability vs analysed set")
+    chk.floor("bodies-analysed", len(an.analysed), 250)
+
+    lemmas = Lemmas(prog, chk, an)
+    n_src = 0
+    by_kind = {}
+    for (body, bb, idx), rec in sorted(an.source.items()):
+        n_src += 1
+        by_kind[rec["kind"]] = by_kind.get(rec["kind"], 0) + 1
+        bad = [c for c in rec["ctx"] if not c[0]]
+        b = prog.bodies[body]
+        inst = "%s|%s|%s" % (body, rec["kind"], _stable_descr(rec["descr"]))
+        if not bad:
+            chk.ob("panic-free", inst, True, where=short_span(rec["span"]), how="E2 domain (%d context(s))" % len(rec["ctx"]))
+            continue
+        lem = lemmas.match(body, bb, rec, bad)
+        if lem is not None:
+            lid, ok, detail = lem
+            chk.ob("panic-free", inst, ok, where=short_span(rec["span"]),
+                   detail=("lemma %s premise failed: %s" % (lid, detail)) if not ok else None, how="lemma %s (premises checked)" % lid)
+            continue
+        c = bad[0]
+        chk.ob("open", inst, False, where=short_span(rec["span"]),
+               detail="%s; reached from entry %s via %s (%d of %d context(s) open)" % (c[2], c[3], _ctx_path(c[1]), len(bad), len(rec["ctx"])))
+    chk.counts["obligations_by_kind"] = by_kind
+    chk.floor("panic-obligations", n_src, 150)
+    lemmas.report()
+    termination(prog, chk, an, reach)
+    chk.sample({"what": "obligation kinds", "counts": by_kind})
+
+
+def _direct_reach(prog, roots):
+    cg = prog.call_graph()
+    seen = set(r for r in roots if r in prog.bodies)
+    work = list(seen)
+    while work:
+        k = work.pop()
+        for bi, t, tg, cb in cg.get(k, []):
+            loc = [x[1] for x in tg if x[0] == "local"]
+            if len(loc) == 1 and loc[0] not in seen:
+                seen.add(loc[0])
+                work.append(loc[0])
+    return seen
+
+
+ALLOW_UNREACHED = ()
+
+
+def _allowed_unreached(k):
+    return False
+
+
+def _covered_elsewhere(prog, k, an):
+    b = prog.bodies[k]
+    if b.mono and b.defp in an.analysed:
+        return True
+    # derive-generated helper never called at run time
+    if k.endswith("::assert_fields_are_eq") or "assert_receiver_is_total_eq" in k:
+        return True
+    return False
+
+
+def _stable_descr(d):
+    d = re.sub(r"\b[tp][0-9a-f]+(_[a-z0-9_]+)?\b", "v", d)
+    return d[:80]
+
+
+def _ctx_path(ctx):
+    parts = re.findall(r"[:\[]([A-Za-z_][\w.{}#|<>' ]*?)#[0-9a-f]+", ctx)
+    return " > ".join(parts[-5:]) if parts else ctx[-80:]
+
+
+# ----------------------------------------------------------------------------------------------- lemmas
+
+class Lemmas:
+    def __init__(self, prog, chk, an):
+        self.prog, self.chk, self.an = prog, chk, an
+        self.cache = {}
+        self.used = {}
+
+    def premise(self, lid):
+        if lid not in self.cache:
+            self.cache[lid] = getattr(self, "prem_" + lid)()
+        return self.cache[lid]
+
+    def match(self, body, bb, rec, bad):
+        kind = rec["kind"]
+        b = self.prog.bodies[body]
+        lid = None
+        if body == FROM_BYTES + "::{closure#0}" or body == FROM_BYTES:
+            if kind == "assert:BoundsCheck" and re.search(r"< len 3$", rec["descr"]):
+                lid = "L4"
+        if body in (VALIDATE, VALIDATE + "::{closure#0}"):
+            if kind == "panic-call":
+                g = guard_of_panic(self.prog, b, bb)
+                gs = repr(g) if g is not None else ""
+                if "padded_len" in gs and ("Le" in gs or "Gt" in gs or "Lt" in gs or "Ge" in gs):
+                    lid = "L2"
+                elif re.search(r"PartialEq.*>::(eq|ne)|partial_eq|equality", gs):
+                    lid = "L3"
+                elif "is_empty" in gs or g is None:
+                    lid = "L3"
+            elif kind in ("index:start",):
+                lid = "L2"
+        if body == GET_TYPE and kind == "unwrap":
+            lid = "L7"
+        if kind == "unwrap" and body in (UNKNOWN_ATTRS, BAD_REQUEST):
+            lid = "L5"
+        if kind == "panic-call" and body.startswith("stun_types::message::MessageBuilder::<'a>::add_attribute"):
+            if all(("unknown_attributes" in c[1] or "bad_request" in c[1]) for c in bad):
+                lid = "L5"
+        if lid is None:
+            return None
+        ok, detail = self.premise(lid)
+        self.used[lid] = self.used.get(lid, 0) + 1
+        return lid, ok, detail
+
+    def report(self):
+        for lid in sorted(self.cache):
+            ok, detail = self.cache[lid]
+            self.chk.ob("lemma-premises", lid, ok, detail=detail, how="re-checked on this tree; discharges %d obligation(s)" % self.used.get(lid, 0))
+
+    # ---- L4: seen_ending_len < 3 at the store into seen_ending_attributes
+    def prem_L4(self):
+        ok, bad = sub_check(self.prog, "c02", rules={"ending-automaton"})
+        if not ok:
+            return False, "the C02 ending-attribute automaton (no ending type is recorded twice; only MI/M2/FP are recorded) does not hold: %s" % bad
+        return True, "C02 ending-automaton holds: at most |{MI,M2,FP}| = 3 distinct types are ever recorded, each at most once"
+
+    # ---- L2: an accepted message body is tiled by (RawAttribute::from_bytes, padded_len)
+    def prem_L2(self):
+        fb = walker_facts(self.prog, FROM_BYTES)
+        vi = walker_facts(self.prog, VALIDATE)
+        msgs = []
+        for f, nm in ((fb, "from_bytes"), (vi, "validate_integrity")):
+            if f["raw_calls"] != 1:
+                msgs.append("%s: expected exactly one RawAttribute::from_bytes call in its loop, found %d" % (nm, f["raw_calls"]))
+            if f["advance_sites"] != 1 or f["advance_ok"] != 1:
+                msgs.append("%s: the walk does not advance by padded_len of the attribute just parsed (%d/%d)" % (nm, f["advance_ok"], f["advance_sites"]))
+            if f["starts"] != [20]:
+                msgs.append("%s: the walk does not start at offset 20 (starts=%s)" % (nm, f["starts"]))
+        # the parser's own advance is discharged by the domain (its guard `padded_len > data.len()` refuses first)
+        for (body, bb, idx), rec in self.an.source.items():
+            if body.startswith(FROM_BYTES) and rec["kind"] == "index:start" and any(not c[0] for c in rec["ctx"]):
+                msgs.append("from_bytes: its own `&data[padded_len..]` is not discharged")
+        # both walk Message.data: validate_integrity starts from self.data, from_bytes returns the slice it walked
+        if not any("field" in s and "data" in s for s in vi["base"]):
+            msgs.append("validate_integrity does not walk self.data: %s" % vi["base"])
+        sites = e1.construct_sites(self.prog, MSG)
+        where = {s["body"] for s in sites}
+        allowed = {FROM_BYTES, FROM_BYTES + "::{closure#0}", "<stun_types::message::Message<'a> as std::clone::Clone>::clone"}
+        if not where <= allowed:
+            msgs.append("Message is constructed outside from_bytes/clone: %s" % sorted(where - allowed))
+        # Ok is returned only when the remainder is empty: the loop exit is the `is_empty` test (checked by C02 tiling rule if present)
+        return (not msgs), ("; ".join(msgs) if msgs else "both walkers step by (RawAttribute::from_bytes, padded_len) from offset 20 over Message.data; the parser refuses an over-long attribute before advancing; Message is constructed only by from_bytes/clone")
+
+    # ---- L3: the scan in validate_integrity finds the attribute raw_attribute() returned
+    def prem_L3(self):
+        ok2, d2 = self.premise("L2")
+        if not ok2:
+            return False, "needs L2: " + d2
+        ok, bad = sub_check(self.prog, "c02", rules={"ending-automaton"})
+        if not ok:
+            return False, "C02 ending-automaton (no repeated integrity attribute) fails: %s" % bad
+        ok, bad = sub_check(self.prog, "c10")
+        if not ok:
+            return False, "C10 exposure transducer fails: %s" % bad
+        # the scan compares the same type constants the lookups used, per algorithm
+        from dtable import instrumented_body
+        b, ups = instrumented_body(self.prog, VALIDATE)
+        og = Origins(self.prog, b)
+        looked, compared = set(), set()
+        for bi, t in b.calls():
+            name = og.callee_name(t)
+            if name.endswith("::raw_attribute"):
+                c = const_int(strip_field(og.operand(t["args"][1])))
+                looked.add(c)
+            if re.search(r"AttributeType as std::cmp::PartialEq>::eq$", name):
+                for a in t["args"]:
+                    c = const_int(strip_field(og.operand(a)))
+                    if c is not None:
+                        compared.add(c)
+        if looked != {0x0008, 0x001C} or not looked <= compared:
+            return False, "lookups use types %s but the scan compares %s" % (sorted(looked), sorted(compared))
+        return True, "lookups and scan use MI/M2 type constants; parser admits each at most once; iterator exposure (C10) and tiling (L2) hold"
+
+    # ---- L5: adding distinct non-sealing attributes to a fresh builder succeeds
+    def prem_L5(self):
+        ok, bad = sub_check(self.prog, "c11")
+        if not ok:
+            return False, "C11 builder tables fail: %s" % bad
+        msgs = []
+        for key in (UNKNOWN_ATTRS, BAD_REQUEST):
+            b = self.prog.bodies[key]
+            og = Origins(self.prog, b)
+            types = []
+            fresh = False
+            for bi, t in b.calls():
+                name = og.callee_name(t)
+                if name.endswith("::builder_error_unchecked"):
+                    fresh = True
+                if name.endswith("MessageBuilder::<'a>::add_attribute"):
+                    recv = repr(og.operand(t["args"][0]))
+                    a = og.operand(t["args"][1])
+                    # &T coerced to &dyn AttributeWrite: find T through the cast operand's type
+                    tname = None
+                    for bi2, si2, s2 in b.iter_stmts():
+                        pass
+                    src = t["args"][1]
+                    tname = _unsized_source_type(b, src)
+                    cv = self.prog.consts.get("<%s as stun_types::attribute::AttributeStaticType>::TYPE" % tname, {}).get("v", {}).get("int") if tname else None
+                    types.append((tname, cv))
+            if not fresh:
+                msgs.append("%s: the builder does not come from builder_error_unchecked" % key)
+            vals = [v for _, v in types]
+            if not types or None in vals:
+                msgs.append("%s: cannot resolve the attribute types added: %s" % (key, types))
+            elif len(set(vals)) != len(vals) or set(vals) & {0x0008, 0x001C, 0x8028}:
+                msgs.append("%s: added types are not pairwise distinct non-sealing types: %s" % (key, types))
+        # a fresh builder holds no attributes
+        bk = "stun_types::message::Message::<'a>::builder"
+        if bk in self.prog.bodies:
+            b = self.prog.bodies[bk]
+            og = Origins(self.prog, b)
+            sites = [s for s in e1.construct_sites(self.prog, "stun_types::message::MessageBuilder") if s["body"] == bk]
+            okb = False
+            for s in sites:
+                ops = [repr(strip(og.operand(o))) for o in s["stmt"]["rv"]["ops"]]
+                if sum(1 for o in ops if "Vec" in o and ("::new" in o or "with_capacity" in o)) >= 2 or sum(1 for o in ops if "SmallVec" in o or "Vec" in o) >= 2:
+                    okb = True
+            if not okb:
+                msgs.append("Message::builder does not start from empty attribute lists")
+        return (not msgs), ("; ".join(msgs) if msgs else "fresh builder; added types pairwise distinct and none of MI/M2/FP; C11 refusal table holds")
+
+    # ---- L7: the first two bytes of an accepted message decode as a MessageType
+    def prem_L7(self):
+        msgs = []
+        from dtable import instrumented_body
+        b, ups = instrumented_body(self.prog, FROM_BYTES)
+        og = Origins(self.prog, b)
+        # (a) Message{data: X}: X is the slice handed to MessageHeader::from_bytes, whose Continue arm dominates the aggregate
+        sites = [s for s in e1.construct_sites(self.prog, MSG) if s["body"] == b.key]
+        hdr_calls = [(bi, t) for bi, t in b.calls() if og.callee_name(t) == HDR_FROM_BYTES]
+        if len(hdr_calls) != 1 or not sites:
+            msgs.append("from_bytes: expected one MessageHeader::from_bytes call and an aggregate")
+        else:
+            hb, ht = hdr_calls[0]
+            harg = strip(og.operand(ht["args"][0]))
+            for s in sites:
+                x = strip(og.operand(s["stmt"]["rv"]["ops"][0]))
+                if repr(x) != repr(harg):
+                    msgs.append("Message.data (%r) is not the slice the header decoder validated (%r)" % (x, harg))
+                if not b.dominates(hb, s["bb"]):
+                    msgs.append("the header decode does not dominate the construction")
+                # the `?` on the header result: construction must be reachable only through the Continue arm
+                if not _ok_arm_dominates(self.prog, b, og, hb, s["bb"]):
+                    msgs.append("the construction is not dominated by the Ok arm of MessageHeader::from_bytes")
+        # (b) MessageHeader::from_bytes returns Ok only after MessageType::from_bytes(data) on the same slice returned Ok
+        hbdy = self.prog.bodies[HDR_FROM_BYTES]
+        hog = Origins(self.prog, hbdy)
+        mt = [(bi, t) for bi, t in hbdy.calls() if hog.callee_name(t) == MT_FROM_BYTES]
+        if len(mt) != 1 or repr(strip(hog.operand(mt[0][1]["args"][0]))) != "param(1)":
+            msgs.append("MessageHeader::from_bytes does not decode the type from its own argument")
+        else:
+            oks = [(bi, si) for bi, si, s in hbdy.iter_stmts() if s["k"] == "assign" and s["rv"]["k"] == "aggregate" and s["rv"].get("adt") == "std::result::Result" and s["rv"].get("vname") == "Ok"]
+            for bi, si in oks:
+                if not _ok_arm_dominates(self.prog, hbdy, hog, mt[0][0], bi):
+                    msgs.append("MessageHeader::from_bytes can return Ok without the type decoder's Ok")
+        # (c) MessageType::from_bytes looks only at the length and the first two bytes (read_u16 of its argument)
+        mb = self.prog.bodies[MT_FROM_BYTES]
+        mog = Origins(self.prog, mb)
+        for bi, t in mb.calls():
+            name = mog.callee_name(t)
+            uses = [i for i, a in enumerate(t["args"]) if "param(1)" in repr(mog.operand(a))]
+            if uses and not re.search(r"::len$|ByteOrder>::read_u16$|fmt|tracing", name):
+                msgs.append("MessageType::from_bytes passes its argument to %s" % name)
+        # (d) get_type decodes &self.data[..2]
+        gb = self.prog.bodies[GET_TYPE]
+        gog = Origins(self.prog, gb)
+        okd = False
+        for bi, t in gb.calls():
+            if re.search(r"Index<std::ops::RangeTo<usize>> for \[u8\]>::index$", gog.callee_name(t)):
+                rng = strip(gog.operand(t["args"][1]))
+                base = repr(strip(gog.operand(t["args"][0])))
+                if rng.k == "agg" and const_int(rng.a[1][0]) == 2 and "data" in base:
+                    okd = True
+        if not okd:
+            msgs.append("get_type does not decode self.data[..2]")
+        return (not msgs), ("; ".join(msgs) if msgs else "Message.data is the slice whose header decode (incl. MessageType::from_bytes on bytes 0..2) returned Ok; get_type re-decodes data[..2]")
+
+
+def strip_field(o):
+    """AttributeType(x) newtype / references peeled down to the constant"""
+    o = strip(o)
+    for _ in range(4):
+        if o.k == "agg" and len(o.a[1]) == 1:
+            o = strip(o.a[1][0])
+        elif o.k == "field":
+            o = strip(o.a[0])
+        else:
+            break
+    return o
+
+
+def _unsized_source_type(b, op):
+    """the concrete T of an `&T as &dyn Trait` argument"""
+    if op["k"] not in ("copy", "move") or op["pl"]["p"]:
+        return None
+    l = op["pl"]["l"]
+    seen = set()
+    for _ in range(6):
+        ds = b.defs().get(l, [])
+        if len(ds) != 1 or ds[0][0] != "stmt" or l in seen:
+            return None
+        seen.add(l)
+        rv = ds[0][3]["rv"]
+        if rv["k"] == "cast" and rv["kind"].startswith("PointerCoercion(Unsize"):
+            src = rv["op"]
+            t = b.ty(src["pl"]["ty"]) if src["k"] in ("copy", "move") else b.ty(src["ty"])
+            if t.get("k") == "ref":
+                to = b.ty(t["to"])
+                return to.get("path")
+            return None
+        if rv["k"] in ("use", "copy_for_deref") and (rv.get("op", {}).get("k") in ("copy", "move")):
+            l = rv["op"]["pl"]["l"]
+            continue
+        if rv["k"] == "ref" and not rv["pl"]["p"]:
+            l = rv["pl"]["l"]
+            continue
+        if rv["k"] == "ref" and rv["pl"]["p"] == [{"k": "deref"}]:
+            l = rv["pl"]["l"]
+            continue
+        return None
+    return None
+
+
+def _ok_arm_dominates(prog, b, og, call_bb, target_bb):
+    """the value returned by the call at call_bb goes through `Try::branch`, and target_bb is dominated by the
+    Continue arm of the switch on its discriminant (i.e. by the `?` having succeeded)"""
+    t = b.term(call_bb)
+    dest = t["dest"]["l"]
+    for bi, tt in b.calls():
+        if og.callee_name(tt).endswith("as std::ops::Try>::branch") and tt["args"] and tt["args"][0]["k"] in ("move", "copy") and tt["args"][0]["pl"]["l"] == dest:
+            nb = tt["t"]
+            sw = b.term(nb)
+            if sw["k"] != "switch":
+                return False
+            cont = [x for v, x in sw["targets"] if v == 0]
+            return bool(cont) and b.dominates(cont[0], target_bb)
+    return False
+
+
+# ----------------------------------------------------------------------------------------------- termination
+
+STD_FINITE_ITER = re.compile(r"^<(std::iter::(Enumerate|Map|Filter|Rev|Take|Skip|Zip|Cloned|Copied)<)*std::(slice::(Iter|IterMut|ChunksExact|Chunks)(Mut)?|vec::IntoIter|ops::Range)<.*> as std::iter::Iterator>::next$")
+LOCAL_ITER = re.compile(r"^<(std::iter::(Enumerate|Map|Filter)<)+stun_types::message::MessageAttributesIter<.*> as std::iter::Iterator>::next$")
+
+
+def termination(prog, chk, an, reach):
+    # (i) acyclic call graph over the reachable bodies
+    cg = prog.call_graph()
+    color = {}
+    cyc = []
+
+    def dfs(k):
+        stack = [(k, iter([x[1] for _, _, tg, cb in cg.get(k, []) for x in tg if x[0] == "local"]))]
+        color[k] = 1
+        while stack:
+            n, itx = stack[-1]
+            adv = False
+            for m in itx:
+                if m not in reach:
+                    continue
+                if color.get(m) == 1:
+                    cyc.append((n, m))
+                elif m not in color:
+                    color[m] = 1
+                    stack.append((m, iter([x[1] for _, _, tg, cb in cg.get(m, []) for x in tg if x[0] == "local"])))
+                    adv = True
+                    break
+            if not adv:
+                color[n] = 2
+                stack.pop()
+    for k in sorted(reach):
+        if k not in color:
+            dfs(k)
+    # CHA-induced cycles through `dyn` dispatch were already excluded by the principal-trait filter; E2 also fails closed
+    chk.ob("termination", "call graph over the reachable bodies is acyclic", not cyc, detail="cycle: %s" % (cyc[:2],), how="DFS")
+    # (ii) loops
+    n_loops = 0
+    for k in sorted(reach):
+        b = prog.bodies[k]
+        if b.mono and b.defp in reach and b.defp != k:
+            continue
+        heads = sorted({h for (_, h) in b.back_edges()})
+        for h in heads:
+            n_loops += 1
+            inst = "%s|loop" % k
+            ok, how = classify_loop(prog, b, h, an)
+            chk.ob("termination", inst, ok, where=b.loc(b.term(h).get("span")), detail=None if ok else how, how=how)
+    chk.floor("loops-classified", n_loops, 12)
+    # (iii) the workspace iterator makes progress: every Some advances the cursor by >= 4 below the length
+    res = an.entry_results.get(ITER_NEXT)
+    ok, why = iterator_progress(prog, an, res)
+    chk.ob("termination", "MessageAttributesIter::next: Some => cursor advanced by >= 4 and was < len", ok, detail=None if ok else why,
+           how="E2 return states" if ok else None)
+
+
+def classify_loop(prog, b, h, an):
+    og = Origins(prog, b)
+    loop = b.natural_loop(h)
+    # `for` over a finite std iterator: a next() call on it inside the loop dominates every back-edge source
+    backs = [p for p in b.preds(h) if b.dominates(h, p)]
+    for bi in sorted(loop):
+        t = b.term(bi)
+        if t["k"] == "call":
+            name = og.callee_name(t)
+            if STD_FINITE_ITER.match(name) and all(b.dominates(bi, p) for p in backs):
+                return True, "for-loop over a finite std iterator (%s)" % name.split(" as ")[0][1:60]
+            if LOCAL_ITER.match(name) and all(b.dominates(bi, p) for p in backs):
+                return True, "for-loop over MessageAttributesIter (finite by rule iii)"
+    recs = an.loops.get((b.key, h))
+    if not recs:
+        return False, "loop not analysed"
+    for entry, fid, (heads, backs_) in recs:
+        r = ranking(heads, backs_, "%s:ghost@bb%d" % (fid, h))
+        if r is None:
+            return False, "no ranking argument found for the loop at bb%d (entry %s)" % (h, entry)
+        how = r
+    return True, "ranking: " + how
+
+
+def ranking(heads, backs, ghost_name=None):
+    """a measure that strictly decreases on every back edge and is bounded below.  Every back-edge state carries a
+    ghost snapshot of the numeric state at the start of its iteration; returns a description or None"""
+    from absint.interp import num_leaves
+    if not backs:
+        return "no feasible back edge"
+    per_state = []
+    for bs in backs:
+        gname = [c for c in bs.cells if ":ghost@bb" in c and (ghost_name is None or c == ghost_name)]
+        if not gname:
+            return None
+        # the innermost enclosing loop's snapshot is the one whose name matches this head; callers pass it
+        g = bs.cells[gname[-1] if ghost_name is None else ghost_name]
+        start = {n: v.e for n, v in g.f.items() if isinstance(v, Num)}
+        end = {}
+        for c, v in bs.cells.items():
+            if ":ghost@bb" not in c and ":k@bb" not in c:
+                num_leaves(c, v, end)
+        per_state.append((bs, start, end))
+    names = set(per_state[0][1])
+    for _, st_, _e in per_state[1:]:
+        names &= set(st_)
+    for name in sorted(names):
+        dec = inc = True
+        bound = None
+        for bs, start, end in per_state:
+            he, be = start[name], end.get(name)
+            if be is None:
+                dec = inc = False
+                break
+            if not (bs.sys.entails_ge(he - be - 1) and bs.sys.entails_ge(be)):
+                dec = False
+            if inc and bs.sys.entails_ge(be - he - 1):
+                ub = None
+                for n2, h2 in start.items():
+                    if n2 != name and end.get(n2) is not None and bs.sys.entails_eq(end[n2] - h2) and bs.sys.entails_ge(h2 - he - 1):
+                        ub = n2
+                        break
+                if ub is None:
+                    inc = False
+                else:
+                    bound = ub
+            else:
+                inc = False
+            if not dec and not inc:
+                break
+        if dec:
+            return "%s decreases by >= 1 and stays >= 0" % _leaf_name(name)
+        if inc:
+            return "%s increases by >= 1 below the loop-invariant %s" % (_leaf_name(name), _leaf_name(bound))
+    return None
+
+
+def _leaf_name(n):
+    return re.sub(r"^.*:(_\d+|a\d+\*a\d+)", r"\1", n)
+
+
+def iterator_progress(prog, an, res):
+    if not res:
+        return False, "MessageAttributesIter::next was not analysed"
+    b = prog.bodies[ITER_NEXT]
+    for st, ret in res:
+        if isinstance(ret, Enum) and 1 in ret.v:
+            if 0 in ret.v:
+                return False, "a return state mixes Some and None"
+            # cursor field before/after: the region cell of `self`
+            cells = [c for c in st.cells if c.endswith("*a1")]
+            if not cells:
+                return False, "self region not found"
+            s = st.cells[cells[0]]
+            if not isinstance(s, Struct):
+                return False, "self is not a struct"
+            data, cur = s.get(0), s.get(1)
+            if not (isinstance(data, Seq) and isinstance(cur, Num)):
+                return False, "cursor/data not tracked"
+            g = st.cells.get("ghost:init")
+            if not (isinstance(g, Struct) and isinstance(g.get(1), Num)):
+                return False, "initial cursor not tracked"
+            i0 = g.get(1).e
+            if not st.sys.entails_ge(cur.e - i0 - 4):
+                return False, "cannot show cursor' >= cursor + 4 on a Some return"
+            if not st.sys.entails_ge(data.len - i0 - 1):
+                return False, "cannot show cursor < len on a Some return"
+    return True, None
+
+
+def run_thorough(prog, chk):
+    """repeat under the release profile (no debug assertions, wrapping arithmetic) and with the `arbitrary` feature"""
+    import mir
+    from report import Check
+    for cfgname in ("release", "arbitrary"):
+        try:
+            p2 = mir.build_program(config=cfgname)
+        except Exception as e:
+            chk.fail("thorough-config", cfgname, None, "cannot analyse configuration: %s" % e)
+            continue
+        sub = Check("C01", "thorough", LEVEL, 0)
+        run(p2, sub, "quick")
+        bad = [o for o in sub.obs if not o["ok"]]
+        chk.ob("thorough-config", cfgname, not bad, detail="; ".join("%s|%s" % (o["rule"], o["instance"]) for o in bad[:4]),
+               how="%d obligations under configuration %s" % (len(sub.obs), cfgname))
+        chk.counts["obligations_" + cfgname] = len(sub.obs)
